@@ -63,7 +63,12 @@ def eval_case(case):
         else:
             parent = spec_of({"seed": case["seed"], "edits": case["edits"][:-1]})
             obj = pi.Images()
-            obj.loads(B.build(parent).dumps())
+            try:
+                obj.loads(B.build(parent).dumps())
+            except (ValueError, TypeError):
+                raise
+            except Exception as exc:                                    # noqa
+                return {"status": "bad", "problems": ["the parent's written file cannot be read back: %s" % type(exc).__name__]}
             B.apply_obj(obj, case["edits"][-1], parent)
     except (ValueError, TypeError) as exc:
         return {"status": "refused", "problems": ["build: %s" % type(exc).__name__]}
